@@ -119,8 +119,15 @@ def fit_tilt_rule(chk, repo, clause):
             # basis rows lo:hi and coefficient entries lo':hi'
             bk = ba[2] if ba and ba[0] == 'idx' else None
             ck = ca[2] if ca and ca[0] == 'idx' else None
-            seg = isinstance(ck, Tup)
-            cs = ck.items[-1] if seg else ck
+            seg = e.in_loop
+            cs = ck.items[-1] if isinstance(ck, Tup) else ck
+            coef_var = ca[1] if ca else None
+            if coef_var is not None and coef_var[0] not in ('loop', 'sym'):
+                # the coefficients were read back from where the fit was stored: name that store
+                for w in p.events:
+                    if w.kind == 'write' and w.data.get('how') == 'setitem' and w.data.get('value') == Poly.atom(coef_var) \
+                            and isinstance(w.target, Poly) and w.target.single_atom() is not None:
+                        coef_var = w.target.single_atom()
             tilt_only = isinstance(bk, Slice) and isinstance(cs, Slice) and cs.lo == C(1) and cs.hi == C(3) and \
                 bk.hi - bk.lo == C(2)
             piston_off = isinstance(bk, Slice) and (bk.lo == C(1) if not seg else (bk.lo - 1).const_value() is None
@@ -133,7 +140,7 @@ def fit_tilt_rule(chk, repo, clause):
             def last(k):
                 return k.items[-1] if isinstance(k, Tup) else k
             rec = xi is not None and yi is not None and xi[0] == 'idx' and yi[0] == 'idx' and \
-                last(xi[2]) == C(1) and last(yi[2]) == C(2) and _same_var(xi[1], ca[1]) and _same_var(yi[1], ca[1])
+                last(xi[2]) == C(1) and last(yi[2]) == C(2) and _same_var(xi[1], coef_var) and _same_var(yi[1], coef_var)
             label = 'segmented' if seg else 'monolithic'
             chk.ob(clause, 'D-index', f.key, f'removes tip and tilt, not piston [{label}]', bool(tilt_only and piston_off),
                    f'OPD correction = einsum({fmt(spec)}, {fmt(basis)}, {fmt(coef)})', f.loc(e.node))
@@ -155,29 +162,68 @@ def _same_var(a, b):
     return a[0] == 'loop' and b[0] == 'loop' and a[1] == b[1]
 
 
-def basis_rule(chk, repo, clause):
+def ptt_rows(repo):
+    """The rows of Plane.ptt_vector as values: -> (f, mesh event, monolithic rows or None,
+    [(slice key, rows, loop index k)] of the segmented fill)."""
     f, paths, _ = analyse(repo, 'plane.Plane.ptt_vector')
-    n = 0
+    mono, seg, mesh = None, [], None
     for p in returns(paths):
+        if p.calls('helper.mesh'):
+            mesh = p.calls('helper.mesh')[0]
+        if isinstance(p.ret, Tup) and len(p.ret) == 3 and all(isinstance(r, Poly) for r in p.ret.items):
+            mono = p.ret.items
         for e in p.events:
-            if e.kind == 'call' and e.data.get('callee') == 'ext:numpy.einsum' and e.depth == 0:
-                args = e.data['args']
-                if len(args) == 3 and isinstance(args[1], Tup) and isinstance(args[2], Tup) and len(args[1]) == 3:
-                    n += 1
-                    mesh = p.calls('helper.mesh')
-                    if not mesh:
-                        raise AnalysisError('ptt_vector does not use helper.mesh')
-                    r, c = nf.index(mesh[0].result, C(0)), nf.index(mesh[0].result, C(1))
-                    rows, scale = args[1].items, args[2].items
-                    psx = [nf.index(nf.attr(S('self'), a), C(k)) for a in ('pixelscale', '_pixelscale') for k in (0, 1)]
-                    ok_rows = rows[1] == nf.app('m:ravel', r) and rows[2] == -nf.app('m:ravel', c)
-                    ok_scale = scale[0] == C(1) and scale[1] in (psx[0], psx[2]) and scale[2] in (psx[1], psx[3])
-                    chk.ob(clause, 'U-axis', f.key, 'basis = [1, +row ramp, -column ramp] (signs of the Tilt convention)',
-                           ok_rows, f'rows: {fmt(args[1])}', f.loc(e.node))
-                    chk.ob(clause, 'U-axis', f.key, 'row ramp scaled by the row pixel size, column ramp by the column pixel size',
-                           ok_scale, f'scales: {fmt(args[2])}', f.loc(e.node))
-    if n == 0:
-        raise AnalysisError('ptt_vector: basis construction not recognised')
+            if e.kind == 'write' and e.data.get('how') == 'setitem' and e.in_loop and isinstance(e.data.get('key'), nf.Slice):
+                v = e.data.get('value')
+                ks = [a for a in nf.value_atoms(e.data['key']) if a[0] == 'iter']
+                if isinstance(v, Tup) and len(v) == 3 and all(isinstance(r, Poly) for r in v.items) and ks:
+                    seg.append((e.data['key'], v.items, Poly.atom(ks[0]), e))
+    return f, mesh, mono, seg
+
+
+def basis_rule(chk, repo, clause):
+    f, mesh, mono, seg = ptt_rows(repo)
+    if mesh is None:
+        raise AnalysisError('ptt_vector does not use helper.mesh')
+    r, c = nf.index(mesh.result, C(0)), nf.index(mesh.result, C(1))
+    px = lambda k: (nf.index(nf.attr(S('self'), 'pixelscale'), C(k)), nf.index(nf.attr(S('self'), '_pixelscale'), C(k)))
+    cases = []
+    if mono is not None:
+        cases.append(('monolithic', mono, (nf.attr(S('self'), 'mask'), nf.attr(S('self'), '_mask'))))
+    for key, rows, k, e in seg:
+        cases.append(('segmented', rows, (nf.index(nf.attr(S('self'), 'mask'), k), nf.index(nf.attr(S('self'), '_mask'), k))))
+    if not cases:
+        chk.undecided(clause, 'U-axis', f.key, 'basis = [1, +row ramp, -column ramp] scaled by the same-axis pixel size',
+                      'the rows of ptt_vector are not built as a list of three row arrays', f.loc())
+        return
+    for label, rows, masks in cases:
+        ok_rows = ok_scale = False
+        det = ''
+        for m in masks:
+            mv = nf.app('m:ravel', m)
+            base = [rows[i] / mv for i in range(3)]
+            ones = [a for a in base[0].atoms(deep=False) if is_app(a, 'ones')]
+            piston = len(ones) == 1 and base[0] == Poly.atom(ones[0])
+            for p0 in px(0):
+                for p1 in px(1):
+                    if piston and base[1] == nf.app('m:ravel', r) * p0 and base[2] == -nf.app('m:ravel', c) * p1:
+                        ok_rows = ok_scale = True
+            if not ok_rows and piston:
+                # separate the sign / ramp question from the scale question for the report
+                q1, q2 = base[1] / nf.app('m:ravel', r), base[2] / nf.app('m:ravel', c)
+                if any(q1 == p0 for p0 in px(0)) and any(q2 == -p1 for p1 in px(1)):
+                    ok_rows = ok_scale = True
+                elif q1.atoms() and q2.atoms() and not (nf.value_atoms(q1) | nf.value_atoms(q2)) & \
+                        {a for a in nf.value_atoms(mesh.result)}:
+                    ok_rows = all(cv is None or cv > 0 for cv in [t[1] for t in q1.terms]) and \
+                        all(t[1] < 0 for t in q2.terms)
+            det = '; '.join(fmt(b)[-90:] for b in base)
+            if ok_rows:
+                break
+        chk.ob(clause, 'U-axis', f.key, f'basis = [1, +row ramp, -column ramp] (signs of the Tilt convention) [{label}]',
+               ok_rows, f'rows / mask: {det}', f.loc())
+        chk.ob(clause, 'U-axis', f.key, f'row ramp scaled by the row pixel size, column ramp by the column pixel size [{label}]',
+               ok_scale, f'rows / mask: {det}', f.loc())
 
 
 def dispersion_rule(chk, repo, clause):
